@@ -12,6 +12,7 @@ configuration yields the same value (repr) or the same exception type and
 arguments.  By the property the history must not matter, so the fresh instance
 is the reference model.
 """
+import os
 import re
 
 import numpy as np
@@ -259,6 +260,37 @@ def _mk_arrays():
     return ExpressionSolver(ArrayAtom)
 
 
+# --- an operator table extended by the user: two parenthesis operators of their own, one
+# with the standard brackets but ';' between its arguments, one with brackets of its own
+class OperatorHyp(OperatorPar):          # hyp(a; b) = sqrt(a*a + b*b)
+    symbol: str = 'hyp('
+    symbol_separator: str = ';'
+    narg: int = 2
+
+    def operate_args(self, tokens):
+        a, b = self.args
+        tokens.put_left((a * a + b * b).sqrt())
+
+
+class OperatorAvg(OperatorPar):          # avg[a, b] = (a + b) / 2
+    symbol: str = 'avg['
+    symbol_open: str = '['
+    symbol_close: str = ']'
+    narg: int = 2
+
+    def operate_args(self, tokens):
+        a, b = self.args
+        tokens.put_left((a + b) / tokens.atom(2))
+
+
+def _mk_customop():
+    ops = _default_ops()
+    ops.update({'hyp': OperatorHyp, 'avg': OperatorAvg})
+    steps = _default_steps(["args", "sign", "pow", "mul", "add", "cmp", "not", "and", "or"])
+    steps[0] = dict(steps[0], operators=['hyp', 'avg'] + list(steps[0]['operators']))
+    return ExpressionSolver(FaultyAtom, ops, steps)
+
+
 def _mk_unit():
     return ExpressionSolver(unit_atom, {'par': OperatorPar, 'mul': OperatorMul,
                                         'truediv': OperatorTruediv})
@@ -270,6 +302,7 @@ def _mk_factory():
 
 KINDS = {
     "steps2": (_mk_steps2, "numeric"),
+    "customop": (_mk_customop, "customop"),
     "arrays": (_mk_arrays, "arrays"),
     "factory": (_mk_factory, "numeric"),
     "base": (_mk_base, "numeric"),
@@ -280,7 +313,7 @@ KINDS = {
     "unit": (_mk_unit, "unit"),
 }
 KIND_ORDER = ["base", "faulty", "string", "subset", "steps", "unit", "factory", "steps2",
-              "arrays"]
+              "arrays", "customop"]
 
 
 # expression generator ---------------------------------------------------------
@@ -292,7 +325,7 @@ FUNC1 = ["log(", "log10(", "exp(", "sqrt(", "sin(", "cos(", "tan("]
 FUNC2 = ["logb(", "pow("]
 
 
-def gen_numeric(rng, depth, names):
+def gen_numeric(rng, depth, names, custom=False):
     """Token list of a well-formed expression of the default operator table."""
     def atom():
         if names and rng.random() < 0.25:
@@ -338,6 +371,10 @@ def gen_numeric(rng, depth, names):
                 return [rng.choice(["+", "-"])] + expr(d - 1, 8)
             return expr(d, 8)
         # primary
+        if custom and rng.random() < 0.2:
+            if rng.random() < 0.5:
+                return ["hyp("] + expr(d - 1, 4) + [";"] + expr(d - 1, 4) + [")"]
+            return ["avg["] + expr(d - 1, 4) + [","] + expr(d - 1, 4) + ["]"]
         if r < 0.35:
             return atom()
         if r < 0.65:
@@ -406,15 +443,19 @@ CANARIES = {
     "string": ["a", "a+bc", "(a+bc)>x y z", "limit+100 km"],
     "unit": ["m", "kg*m2/s2", "km/(s*K)", "1e3*J"],
     "arrays": ["foo", "foo - 1", "foo * 2", "foo + bar", "bar / 2 - foo", "zero + 1"],
+    "customop": ["1", "hyp(3; 4)", "pow(2, 3)", "avg[1, 3]*2", "logb(8, 2)+hyp(6; 8)", "(1+2)*3"],
 }
+_DEEP = "(" * 49 + "1+2" + ")" * 49
+for _fam in ("numeric", "customop"):
+    CANARIES[_fam].append(_DEEP)
 BASE_CANARIES = [c for c in CANARIES["numeric"] if "foo" not in c]
 
-OPENERS = set(["("] + FUNC1 + FUNC2)
+OPENERS = set(["(", "hyp(", "avg["] + FUNC1 + FUNC2)
 BINOPS = {"||", "&&", "==", "!=", "<=", ">=", "<", ">", "+", "-", "*", "/", "**"}
 
 
 def is_atom_token(t):
-    return t not in OPENERS and t not in BINOPS and t not in (")", ",", "!")
+    return t not in OPENERS and t not in BINOPS and t not in (")", ",", "!", ";", "]")
 
 
 TEXT_FAULTS = ["unknown_atom", "missing_close", "extra_open", "arity", "no_right",
@@ -427,7 +468,7 @@ def text_fault(tokens, kind, pos, family):
     n = len(tokens)
     order = list(range(pos % n, n)) + list(range(0, pos % n))
     bad = {"numeric": "qux", "subset": "qux", "string": "BAD", "unit": "xyz",
-           "arrays": "qux"}[family]
+           "arrays": "qux", "customop": "qux"}[family]
     if kind == "unknown_atom":
         for i in order:
             if is_atom_token(tokens[i]):
@@ -500,6 +541,8 @@ def gen_tokens(rng, family, depth):
         return gen_arrays(rng, min(depth, 3))
     if family == "numeric":
         return gen_numeric(rng, depth, True)
+    if family == "customop":
+        return gen_numeric(rng, depth, True, custom=True)
     if family == "subset":
         return gen_subset(rng, depth)
     if family == "string":
@@ -524,8 +567,66 @@ def observe(fn):
     return ("value", type(r).__name__, _ADDR.sub("0x", repr(v)), type(v).__name__)
 
 
+# Reference outcomes of the canaries, each computed in a process of its own that has solved
+# nothing else (forked from the still pristine checking process before the search starts).
+# The per-run "pristine" record below cannot see state that is shared by all instances *and*
+# was already set by an earlier run of the same worker process; this one can.
+REFERENCE = None
+
+
+def _canaries(kind):
+    return BASE_CANARIES if kind == "base" else CANARIES[KINDS[kind][1]]
+
+
+def _reference_child(kind, expr, conn):
+    try:
+        InjectedFault.arm(None)
+        reset_arrays()
+        conn.send(observe(lambda: KINDS[kind][0]().solve(expr)))
+    except BaseException as e:      # noqa: B902
+        conn.send(("harness", type(e).__name__, repr(e.args)[:200]))
+    finally:
+        conn.close()
+        os._exit(0)
+
+
+def compute_reference(parallel=16):
+    import multiprocessing as mp
+    ctx = mp.get_context("fork")
+    jobs = [(k, c) for k in KIND_ORDER for c in _canaries(k)]
+    ref = {k: {} for k in KIND_ORDER}
+    running = []
+
+    def reap(block):
+        for item in list(running):
+            proc, conn, k, c = item
+            if block or conn.poll(0):
+                if conn.poll(60):
+                    ref[k][c] = tuple(conn.recv())
+                proc.join(10)
+                running.remove(item)
+    for k, c in jobs:
+        while len(running) >= parallel:
+            reap(False)
+        a, b = ctx.Pipe(duplex=False)
+        proc = ctx.Process(target=_reference_child, args=(k, c, b))
+        proc.start()
+        b.close()
+        running.append((proc, a, k, c))
+    while running:
+        reap(True)
+    return ref
+
+
 class SolverMachine(Machine):
     NAME = "solver"
+
+    @classmethod
+    def prepare(cls, prop):
+        """Called once by the check in a process that has not solved anything yet."""
+        global REFERENCE
+        if REFERENCE is None:
+            REFERENCE = compute_reference()
 
     @classmethod
     def gen_config(cls, rng, prop, tier):
@@ -558,9 +659,10 @@ class SolverMachine(Machine):
         reset_arrays()
         # pristine outcomes, before any history of this run
         self.pristine = {}
-        for k in KIND_ORDER:
+        for k in self.cfg["kinds"]:
             cans = BASE_CANARIES if k == "base" else CANARIES[KINDS[k][1]]
-            self.pristine[k] = {c: observe(lambda: KINDS[k][0]().solve(c)) for c in cans}
+            self.pristine[k] = {c: observe(lambda: KINDS[k][0]().solve(c)) for c in cans
+                                if c != _DEEP}
 
     def stop(self):
         InjectedFault.arm(None)
@@ -585,6 +687,11 @@ class SolverMachine(Machine):
             cans = BASE_CANARIES if kind == "base" else CANARIES[KINDS[kind][1]]
             return {"op": "canary", "inst": kind, "expr": rng.choice(cans)}
         toks, family = self._valid(rng, kind)
+        if family in ("numeric", "customop") and rng.random() < 0.02:
+            # an expression nested far deeper than anybody writes by hand
+            n = rng.choice([30, 49, 51, 60, 80, 120])
+            return {"op": "solve", "inst": kind, "expr": "(" * n + "2*3" + ")" * n,
+                    "fault": None, "tf": None}
         # fault enumeration: once per run, sweep a fault over every position
         if cfg["sweep"] and not self.swept and rng.random() < 0.3:
             self.swept = True
@@ -689,13 +796,22 @@ class SolverMachine(Machine):
 
     def _apply_canary(self, op, kind, es):
         want = self.pristine.get(kind, {}).get(op["expr"])
-        if want is None:
+        if want is None and (REFERENCE or {}).get(kind, {}).get(op["expr"]) is None:
             return "skip", None
         if self.failed_before[kind]:
             self.stats.probe("canary_after_failed_call")
         InjectedFault.arm(None)
         got = observe(lambda: es.solve(op["expr"]))
         fresh = observe(lambda: KINDS[kind][0]().solve(op["expr"]))
+        ref = (REFERENCE or {}).get(kind, {}).get(op["expr"])
+        if ref is not None and ref[0] != "harness" and tuple(got) != tuple(ref):
+            # what a process that has solved nothing else returns for this expression
+            raise Violation("history_dependence_vs_fresh_process",
+                            {"instance": kind, "expr": op["expr"], "reused_instance": got,
+                             "fresh_process": list(ref), "fresh_instance_now": fresh},
+                            signature=f"C02/fresh_process/{kind}")
+        if want is None:
+            return "canary_ok", list(got)
         if got != want:
             raise Violation("history_dependence_vs_pristine",
                             {"instance": kind, "expr": op["expr"], "reused_instance": got,
@@ -725,6 +841,7 @@ class SolverMachine(Machine):
         fam = KINDS.get(op["inst"], (None, "numeric"))[1]
         simple = {"arrays": ["foo", "foo-1", "(foo", "foo+qux"],
                   "numeric": ["1", "1+", "(1", "1+qux", "1+1"],
+                  "customop": ["1", "hyp(3;4)", "pow(2,3)", "(1)", "avg[1,3]", "1+qux"],
                   "subset": ["1", "1+", "(1", "1+qux", "1+1"],
                   "string": ["a", "a+", "(a", "a+BAD", "a+a"],
                   "unit": ["m", "m*", "(m", "m*xyz", "m*s"]}[fam]
